@@ -49,6 +49,15 @@ def calibrate():
         good.append(ok)
     return good
 
+# concrete spellings of the model's fence names p and q, rotated over the documents: plain names, names that share an identifier
+# prefix and differ only after a character that cannot be part of an identifier (_ . - /), names that begin with a reserved
+# word (hidden, disabled), names of which one is a prefix of the other.  The name of a fence is its whole tag.
+NAME_PAIRS = [("p", "q"), ("step_1", "step_2"), ("v1.0", "v1.1"), ("ns-a", "ns-b"), ("hidden_layer", "hidden_state"),
+              ("disabled_v0", "enabled_v0"), ("x", "xy"), ("data/raw", "data/clean"), ("a1", "a_1"), ("Q", "q")]
+def concrete(ns, n):
+    if ns == "": return ""
+    return NAME_PAIRS[n % len(NAME_PAIRS)][0 if ns == "p" else 1]
+
 def render_block(blk, n, pos, pool):
     if blk["b"] == "prose":
         if pos == 0 and n % 5 == 0: return TITLE[1]
@@ -59,7 +68,7 @@ def render_block(blk, n, pos, pool):
     if k <= 1 and len(lines) >= 1:      # never as the first line of a block: `--` right after a list reads as list text
         lines = lines[:1] + [COMMENTS[(n + 2 * pos) % len(COMMENTS)]] + lines[1:]
     if blk["b"] == "code": return "\n".join(lines)
-    tag = "mech" if blk["ns"] == "" else "mech:" + blk["ns"]
+    tag = "mech" if blk["ns"] == "" else "mech:" + concrete(blk["ns"], n)
     fence = "```" if (n + pos) % 2 == 0 else "~~~"
     return f"{fence}{tag}\n" + "\n".join(lines) + f"\n{fence}"
 
@@ -88,7 +97,7 @@ def run(rep, tier, seed):
         blocks = [render_block(b, n, i, pool) for i, b in enumerate(cs["doc"])]
         blocks.insert(1 if blocks and blocks[0] == TITLE[1] else 0, S.FN_DEFS)       # function definitions change no variable
         text = "\n\n".join(blocks) + "\n"
-        fns = sorted(cs["subs"].keys())
+        fns = sorted(concrete(f, n) for f in cs["subs"].keys())
         reqs.append({"id": n, "mode": "session", "stmts": [text], "opts": {"store": True, "names": names, "subs": fns}})
     outs = execpool.run_requests(reqs, nworkers=16, timeout=120)
     tally = collections.Counter()
@@ -113,14 +122,15 @@ def run(rep, tier, seed):
         subs = st.get("subs", {})
         for f, ms in cs["subs"].items():
             mod = S.model_state(ms, names)
-            if f in subs:
-                obs = S.observed_state(subs[f], names)
+            cf = concrete(f, n)
+            if cf in subs:
+                obs = S.observed_state(subs[cf], names)
             else:
                 obs = ({x: None for x in names}, [])
                 if f in cs["used"] and any(v is not None for v in mod[0].values()):
-                    rep.fail(f"C10/sub-missing/{kinds}", f"{text!r}: no sub-interpreter for fence name {f}", replay); bad = True; break
+                    rep.fail(f"C10/sub-missing/{kinds}", f"{text!r}: no sub-interpreter for fence name {cf}", replay); bad = True; break
             if obs != mod:
-                rep.fail(f"C10/sub-store/{kinds}", f"{text!r}: fence namespace {f} holds {obs}, model {mod}", replay); bad = True; break
+                rep.fail(f"C10/sub-store/{kinds}", f"{text!r}: fence namespace {cf} holds {obs}, model {mod}", replay); bad = True; break
         if bad: continue
         if st.get("nsubs", 0) > len(cs["used"]):
             rep.fail(f"C10/extra-namespace/{kinds}", f"{text!r}: {st.get('nsubs')} sub-interpreters for fence names {cs['used']}", replay); continue
